@@ -23,6 +23,11 @@ after the loop `while used_type_names.contains(name)` has exited and records it 
 used_type_names.  C32.CHARSET: generated names use a head alphabet of letters and a body alphabet
 within [_0-9A-Za-z], and names that are empty or reserved keywords are rejected.  C32.PRUNE:
 unused fragments are dropped by retaining exactly the fragments reachable from operations.
+C32.EXTREQ: reader/writer agreement on input object fields: input_value_for_type builds a value
+from the first definition of the type only, so input_object_type_definition must, under `extend`,
+give every NonNull field without default value its inner type (no further condition).
+C32.ROOTS: between two root operation type picks of schema_definition every candidate equal to
+the chosen type is removed (the candidate list repeats a type once per extension).
 """
 
 S = "apollo_smith::"
@@ -277,6 +282,143 @@ def rule_impldup(prog, rep):
         raise AnchorError("expected the additional_implements calls of interface_type_definition and object_type_definition")
 
 
+def rule_extreq(prog, rep):
+    """agreement between the reader and the writer of input object fields: values of an input
+    object type are generated from the fields of the FIRST definition with that name (the
+    definition itself; its extensions come later in the list), so an `extend input` must not
+    add a field that is required (non-null without a default value) - otherwise every generated
+    value of that type is rejected with `the required field T.f is not provided`"""
+    rep.floor("C32.EXTREQ", 2)
+    from ..core import op_local
+    from ..flow import _bool_facts
+    g = prog.fn(r"^apollo_smith::input_value::<impl apollo_smith::DocumentBuilder<'_>>::input_value_for_type$")
+    first_only = all_defs = False
+    for h in prog.fns.values():
+        if h.kind == "closure" and h.name.startswith(g.name + "::"):
+            for c in h.live_calls():
+                if "input_object_type_defs" not in " ".join(h.sym(a) for a in c.args[:1]):
+                    continue
+                if re.search(r"Iterator>?::(find|find_map|next|nth)$|::(first|get)$", c.name):
+                    first_only = True
+                if re.search(r"Iterator>?::(filter|flat_map|filter_map|for_each|fold)$", c.name):
+                    all_defs = True
+    if not first_only and not all_defs:
+        raise Undecided("input_value_for_type: how the input object definition is looked up was not recognised")
+    if all_defs and not first_only:
+        rep.instance("C32.EXTREQ", "input_value_for_type builds an object value from the fields of the definition and of every extension")
+        rep.instance("C32.EXTREQ", "(no restriction on extension fields is needed)")
+        return
+    rep.instance("C32.EXTREQ", "input_value_for_type builds an object value from the first definition of that name only (find)")
+    f = prog.fn(r"^apollo_smith::input_object::<impl apollo_smith::DocumentBuilder<'_>>::input_object_type_definition$")
+    l_ext, agg_fields = None, ""
+    for b in sorted(f.live_blocks()):
+        for st in f.stmts(b):
+            if st[0] == "=" and st[2][0] == "agg" and isinstance(st[2][1], list) and st[2][1][0] == "adt" and st[2][1][1].endswith("::InputObjectTypeDef"):
+                l_ext = op_local(st[2][2][st[2][1][3].index("extend")])
+                agg_fields = f.sym(st[2][2][st[2][1][3].index("fields")])
+    if l_ext is None:
+        raise Undecided("input_object_type_definition: the InputObjectTypeDef it returns was not found")
+    ext_facts = {x[:4] for x in _bool_facts(f, l_ext, True, 0)}
+    ok = False
+    why = "no statement makes the required fields of an extension nullable"
+    for b in sorted(f.live_blocks()):
+        for st in f.stmts(b):
+            if not (st[0] == "=" and st[1][1] and isinstance(st[1][1][-1], list) and st[1][1][-1][0] == "f" and st[1][1][-1][2] == "ty"):
+                continue
+            fs = facts_at(f, b)
+            elem = None
+            for x in fs:
+                if x[0] == "variant" and x[2] == "NonNull" and x[3] is True and x[1].endswith(".ty") and "IterMut" in x[1]:
+                    elem = x[1][:-3]
+            if elem is None:
+                why = "the field type is rewritten without testing that it is NonNull"
+                continue
+            nodef = any(x[0] == "callbool" and x[1].endswith("Option::<T>::is_none") and x[3] is True and x[2] and x[2][0] == elem + ".default_value" for x in fs) or \
+                any(x[0] == "callbool" and x[1].endswith("Option::<T>::is_some") and x[3] is False and x[2] and x[2][0] == elem + ".default_value" for x in fs) or \
+                any(x[0] == "variant" and x[1] == elem + ".default_value" and x[2] == "None" and x[3] is True for x in fs)
+            anydef = not any(x[1].endswith(".default_value") or (x[0] == "callbool" and x[2] and str(x[2][0]).endswith(".default_value")) for x in fs)
+            rest = []
+            for x in fs:
+                k = x[:4]
+                if k in ext_facts:
+                    continue
+                if x[0] == "variant" and ("Try>::branch" in x[1] or x[1].startswith("call:<std::slice::IterMut") and not x[1].endswith(".default_value")):
+                    continue
+                if x[0] == "callbool" and x[2] and str(x[2][0]).endswith(".default_value"):
+                    continue
+                if x[0] == "variant" and x[1].endswith(".default_value"):
+                    continue
+                rest.append(k)
+            val = f.sym(st[2][1]) if st[2][0] == "use" else ""
+            from_payload = ".ty.as:NonNull.0" in val or "as:NonNull.0" in val
+            m = re.search(r"@(\d+)", elem)
+            nxt = [c for c in f.live_calls() if m and c.block == int(m.group(1))]
+            loopvar = bool(nxt) and "input_values_def(" in f.sym(nxt[0].args[0]) and "input_values_def(" in agg_fields
+            if not (nodef or anydef):
+                why = "the NonNull marker is removed only from fields that HAVE a default value"
+            elif rest:
+                why = "the required fields of an extension are made nullable only under a further condition %s" % (rest[:2],)
+            elif not from_payload:
+                why = "the type written back is `%s`, not the inner type of the NonNull" % val[:80]
+            elif not loopvar:
+                why = "the rewritten fields are not the ones given to the InputObjectTypeDef"
+            else:
+                ok = True
+    rep.obligation(ok)
+    if ok:
+        rep.instance("C32.EXTREQ", "input_object_type_definition: under `extend`, every field that is NonNull and has no default value is given its inner (nullable) type")
+    else:
+        rep.finding("C32.EXTREQ", f.name, "extension-required-field",
+                    "values of an input object type are generated from the fields of its definition only, but an `extend input` can add a required field (%s): every value of that type generated afterwards (and every default value generated before) is rejected with `the required field T.f is not provided`" % why, f.loc())
+
+
+def rule_roots(prog, rep):
+    """C32.ROOTS: the root operation types of the generated `schema { }` are distinct.  The
+    candidate list has one entry per object type definition AND per extension (duplicates), so
+    after a root is chosen every entry equal to it must be removed (`retain(|t| t != chosen)`)
+    before the next root is chosen; removing the chosen *index* leaves the duplicates in."""
+    from ..flow import must_pass
+    rep.floor("C32.ROOTS", 2)
+    f = prog.fn(r"^apollo_smith::schema::<impl apollo_smith::DocumentBuilder<'_>>::schema_definition$")
+    picks = []
+    for c in f.live_calls():
+        if re.search(r"Unstructured(::<'a>)?::(choose|choose_index|choose_iter|int_in_range)$", c.name):
+            a = " ".join(f.sym(x) for x in c.args[1:])
+            if "list_existing_object_types(" in a:
+                picks.append(c)
+    if len(picks) < 2:
+        raise Undecided("schema_definition: fewer than two root picks from list_existing_object_types() recognised (%d)" % len(picks))
+    dom = sorted(picks, key=lambda c: sum(1 for d in picks if f.dominates(d.block, c.block)))
+    src = " ".join(f.sym(x) for x in dom[0].args[1:])
+    dedup = re.search(r"dedup|IndexSet|BTreeSet|HashSet|unique", src) is not None
+    good = []
+    for c in f.live_calls():
+        if c.name.endswith("Vec::<T, A>::retain") and "list_existing_object_types(" in f.sym(c.args[0]):
+            m = re.match(r"closure:(.*)$", f.sym(c.args[1]))
+            cl = [h for h in prog.fns.values() if h.parent == f.uid and h.kind == "closure" and m and (h.d.get("item") or h.name).endswith(m.group(1).rstrip(":").split("::")[-1])]
+            ne = False
+            for h in cl:
+                for k in h.live_calls():
+                    if re.search(r"PartialEq(<[^>]*>)?::ne$", k.name):
+                        sy = [h.sym(x) for x in k.args]
+                        if any("arg2" in y for y in sy) and any("arg1" in y for y in sy):
+                            ne = True
+            if ne:
+                good.append(c.block)
+    for a, b in zip(dom, dom[1:]):
+        starts = [a.target] if a.target is not None else []
+        ok = bool(good) and must_pass(f, starts, [b.block], set(good))[0]
+        byidx = [c for c in f.live_calls() if re.search(r"Vec::<T, A>::(remove|swap_remove)$", c.name) and "list_existing_object_types(" in f.sym(c.args[0])]
+        if not ok and dedup and byidx:
+            ok = must_pass(f, starts, [b.block], {c.block for c in byidx})[0]
+        rep.obligation(ok)
+        if ok:
+            rep.instance("C32.ROOTS", "schema_definition: between the root pick at line %d and the one at line %d every entry equal to the chosen type is removed from the candidates" % (a.line, b.line))
+        else:
+            rep.finding("C32.ROOTS", f.name, "duplicate-root",
+                        "between two root operation type picks the chosen type is %s: the candidate list holds one entry per definition and per extension of an object type, so the same type can be chosen for two roots (`the same type must not be used for multiple root operation types`)" % ("removed by index only" if byidx else "not removed from the candidates"), b.loc())
+
+
 def run(prog, rep):
     rule_det(prog, rep)
     rule_backfill(prog, rep)
@@ -285,5 +427,7 @@ def run(prog, rep):
     rule_prune(prog, rep)
     rule_closure(prog, rep)
     rule_impldup(prog, rep)
+    rule_extreq(prog, rep)
+    rule_roots(prog, rep)
     rep.assume("arbitrary::Unstructured is a deterministic function of its bytes; petgraph::algo::toposort returns a topological order of the graph it is given")
     rep.note("that every generated document parses and validates is not decided as a whole; the clauses above are necessary conditions of it")
